@@ -41,7 +41,11 @@ Definition clamp_statement : Prop :=
     let '(l, c, el, ec) := report_clamp line column end_line end_column in
     l = line /\ el >= l /\ (el = l -> ec > c).
 
-(* (b) at full strength over the fragment's tree type (every tree, whatever its positions): REFUTED by the faithful
-   model (Properties.parsers_agree_all_trees_refuted_paren, _elif, _bool3); proved on the well-formed trees (wf_ss). *)
+(* (b) the fragment.  nconvert t = what nativeparse yields on the serializer's stream for t (proved for EVERY tree:
+   Properties.native_reader_correct); convert t = what fastparse yields.  Agreement at full strength over all trees is
+   REFUTED by the faithful model (Properties.parsers_agree_all_trees_refuted_*: these are real divergences of the two
+   converters, listed as findings); proved on the well-formed trees (wf_ss). *)
+Definition native_reader_spec : Prop := forall t : stmts, read_native (emit t) = Some (nconvert t).
 Definition parsers_agree_all_trees : Prop := forall t : stmts, read_native (emit t) = Some (convert t).
 Definition parsers_agree_on_wf_trees : Prop := forall t : stmts, wf_ss t -> read_native (emit t) = Some (convert t).
+(* and for every tree, up to positions: Properties.parsers_agree_up_to_positions *)
